@@ -10,7 +10,9 @@ import json
 
 from harness import par, tlc
 
-ATOMS = {"MININT-1": -2147483649, "MININT": -2147483648, "0": 0, "MAXINT": 2147483647, "MAXINT+1": 2147483648, "3": 3, "1": 1, "2": 2}
+ATOMS = {"MININT-1": -2147483649, "MININT": -2147483648, "0": 0, "MAXINT": 2147483647, "MAXINT+1": 2147483648, "3": 3, "1": 1, "2": 2,
+         # the JSON number 1e999 (syntactically valid JSON; json.loads gives float("inf")) / the literal 1e999
+         "HUGE": float("inf")}
 ABSENT = "<absent>"
 
 
@@ -61,7 +63,7 @@ def to_literal(t, v):
     if k == "null":
         return "null"
     if k == "int":
-        return str(ATOMS[v["v"]])
+        return "1e999" if v["v"] == "HUGE" else str(ATOMS[v["v"]])
     if k == "str":
         base = None
         tt = t
